@@ -122,6 +122,17 @@ Theorem c07_initial_revision_keeps_contract : forall fc other uc,
 Proof. exact initial_revision_shape. Qed.
 Print Assumptions c07_initial_revision_keeps_contract.
 
+(* the RPC path: Revise from the renter's number and values, then ValidateRevision *)
+Theorem c07_revise_then_validate_safe : forall cur num vs ms r payment collateral transfer burn,
+  wf cur -> inrange cur ->
+  revise cur num vs ms = Ok r ->
+  validate_revision cur r payment collateral = Ok (transfer, burn) ->
+  rnum r = num /\ map oval (rvalid r) = vs /\ map oval (rmissed r) = ms /\
+  rsize r = rsize cur /\ rroot r = rroot cur /\ rother r = rother cur /\
+  safe_revision cur r payment collateral /\ wf r.
+Proof. exact revise_then_validate_safe. Qed.
+Print Assumptions c07_revise_then_validate_safe.
+
 (* no input of any shape (any output counts, any values, any arguments) makes validation panic *)
 Theorem c07_validate_std_no_panic : forall cur rv, validate_std cur rv <> Panic.
 Proof. exact validate_std_no_panic. Qed.
@@ -155,8 +166,9 @@ Theorem c07_clearing_revision_no_panic : forall r vs, clearing_revision r vs <> 
 Proof. exact clearing_revision_no_panic. Qed.
 Print Assumptions c07_clearing_revision_no_panic.
 
-(* all entry points the correspondence check drives *)
-Theorem c07_no_panic : forall c, run c <> Panic.
+(* all entry points the correspondence check drives ([stored_ok]: the pay-by-contract path reads
+   the renter payout of the host's own stored revision, which has one) *)
+Theorem c07_no_panic : forall c, stored_ok c -> run c <> Panic.
 Proof. exact run_no_panic. Qed.
 Print Assumptions c07_no_panic.
 
